@@ -193,6 +193,8 @@ def resolve_order(x, order):
     # order="A" stands for "F" if x is Fortran contiguous in memory (and not C contiguous) and for "C" otherwise;
     # order="K" follows the memory of x. A cotangent or tangent has a memory layout of its own, so the index order
     # is decided here, from x.
+    if isinstance(order, str):
+        order = order.upper()  # NumPy accepts 'a', 'k', 'c', 'f' as well
     if order == "A":
         return "F" if onp.isfortran(onp.asarray(getval(x))) else "C"
     if order == "K":  # memory order of x: only expressible as an index order when x is contiguous
